@@ -50,6 +50,7 @@ class Sim:
         self.faults_fired = {}
         self.stop_on_violation = True
         self.in_sweep = False
+        self.intr_fired = set()  # steps at which the interrupt was actually delivered (whatever came of it)
         self.snap_fn = None  # profile hook: digest of what the shared state reports (interrupt sweeps)
 
     # ------------------------------------------------------------------ bookkeeping
@@ -171,6 +172,7 @@ class Sim:
             m.before(self, op)
         self.peer_fired = False
         PEER["sim"] = self
+        self.peer_calls_before = PEER["calls"]
         PEER["armed"] = op.get("peer")  # F2: the n-th peer invocation inside this call raises
         try:
             if op.get("intr"):
@@ -187,6 +189,7 @@ class Sim:
         PEER["armed"] = None
         if op.get("intr"):
             if self.interrupter.fired:
+                self.intr_fired.add(i)
                 self.fired("F7.interrupt")
                 w = self.interrupter.where
                 self.count("intr@%s:%s" % (w[0], w[1]))
@@ -261,6 +264,7 @@ class Sim:
             "states": [self.user["state"]] if "state" in self.user else [],
             "user_regsnaps": self.user.get("regsnaps"),
             "sweeps": self.user.get("sweeps"),
+            "intr_fired": sorted(self.intr_fired),
         }
 
 
@@ -290,6 +294,11 @@ class ListSource:
     """Replay: executes the recorded list; no PRNG involved."""
 
     def __init__(self, ops, start=0, drop_faults=False):
+        """drop_faults: False | True (every op that carries a fault tag) | a set of step numbers (the
+        ops whose fault actually took effect in the FULL execution: rejected calls, fired interrupts
+        and peer faults, restarts).  With a set, an op whose interrupt / peer fault was configured
+        but did not fire is KEPT (without the fault): it completed in FULL and its result, or its
+        effect on a mutable object such as a Curve, is part of the history."""
         self.ops = ops
         self.pos = start
         self.drop_faults = drop_faults
@@ -298,7 +307,12 @@ class ListSource:
         while self.pos < len(self.ops):
             op = self.ops[self.pos]
             self.pos += 1
-            if self.drop_faults and (op.get("f") or op.get("intr")):
+            if isinstance(self.drop_faults, (set, frozenset)):
+                if op["i"] in self.drop_faults:
+                    continue
+                if op.get("f") or op.get("intr") or op.get("peer") or op.get("sweep"):
+                    op = {k: v for k, v in op.items() if k not in ("f", "intr", "peer", "sweep", "probes")}
+            elif self.drop_faults and (op.get("f") or op.get("intr")):
                 continue
             return op
         return None
